@@ -29,6 +29,23 @@ def loops_of(f):
     return [n for n in f.walk() if n["k"] in ("ForStmt", "WhileStmt", "DoStmt")]
 
 
+def substring_bound_rule(prog, run, rid):
+    """every subString overload forms a pointer into the buffer at a caller-given offset only under offset < size()
+    (shared with C12: the command-line slicing relies on subString being total)"""
+    # every overload: a pointer into the buffer at a caller-given offset is formed only under offset < size()
+    for ov in prog.fns(SS + "::subString"):
+        run.analysed(ov)
+        b0 = ov.params[0]["name"]
+        for n in ov.walk():
+            if n["k"] == "BinaryOperator" and n.get("op") == "+" and (n.get("ct") or "").endswith("*"):
+                txt = rx(ov, n)
+                if re.search(r"\b%s\b" % re.escape(b0), txt) and ("getBuffer()" in txt or "buffer_" in txt):
+                    fa = facts_at(ov, ov.where_enclosing(n), subst=True)
+                    okp = ("(%s < size())" % b0, True) in fa
+                    run.ob(rid, "subString(%s) forms %s only when %s < size()" % (", ".join(q["ct"] for q in ov.params), txt, b0), ov.site, okp, witness=sorted("%s%s" % ("" if v else "!", k) for k, v in fa),
+                           what="" if okp else "a start position at or beyond the end reads outside the buffer (an empty string has size 0)")
+
+
 def check(ctx, run):
     prog = ctx.program()
     run.assume("char is signed 8-bit on the analysed target; the string allocator returns blocks of at least the requested size")
@@ -486,6 +503,7 @@ def check(ctx, run):
     for n in sub.walk():
         if n["k"] == "DeclStmt" and any(d in objs for d in n.get("decls", [])) and bpos in render(sub, n["decls"][0]["init"]):
             facts_new = facts_at(sub, sub.where_enclosing(n), subst=True)
+    substring_bound_rule(prog, run, "R4")
     okn = facts_new is not None and ("(%s < size())" % bpos, True) in facts_new
     run.ob("R4", "subString builds from buffer + beginPos only when beginPos < size()", sub.site, okn, witness=sorted("%s%s" % ("" if v else "!", k) for k, v in (facts_new or [])),
            what="" if okn else "a start position at or beyond the end reads outside the buffer (an empty string has size 0)")
